@@ -13,7 +13,7 @@ import (
 
 // C06: every mutation root field reaches its owning service exactly once.
 
-var c06Faults = []string{"transport", "status500", "errors1", "short", "notjson", "datanull"}
+var c06Faults = []string{"transport", "transport-eof", "transport-reset", "status500", "errors1", "short", "notjson", "datanull"}
 
 // mutationExpect returns field name -> number of client root selections.
 func mutationExpect(op *ast.OperationDefinition) map[string]int {
@@ -131,6 +131,8 @@ func c06Jobs(tier string) []string {
 				jobs = append(jobs, fmt.Sprintf("%s|e0%s%s|mutK%d", w, pl, m, k))
 			}
 		}
+		// id -> type hint configured (the executor then decides per lookup whether to query)
+		jobs = append(jobs, fmt.Sprintf("%s|e1p|mutK%d", w, k), fmt.Sprintf("%s|s1c|mutK%d", w, k-1))
 	}
 	return jobs
 }
@@ -181,6 +183,21 @@ func init() {
 				}
 			}
 			cases = append(cases, named...)
+			// arguments carried by variables (also one called `id`, the name the planner uses
+			// for the stitching key, and one used by two fields)
+			var withVars []Case
+			for _, c := range cases {
+				if c.Dec != "" && c.Dec != "plain" || strings.Count(c.Q, "{") > 2 {
+					continue
+				}
+				for _, d := range Decorate(f.Merged, c.Q) {
+					k := d.Dec[:strings.Index(d.Dec, "@")]
+					if k == "argVar" || k == "argVarNamedId" || k == "argVarDefault" || k == "varTwice" {
+						withVars = append(withVars, d)
+					}
+				}
+			}
+			cases = append(cases, withVars...)
 			for i := from; i < len(cases); i++ {
 				c := cases[i]
 				rp := replayCase{World: wd.Name(), Cfg: cfg.String(), Query: c.Q, Vars: c.Vars, Dec: c.Dec}
